@@ -73,6 +73,12 @@ func (g *Gen) fill(v reflect.Value, depth int, name string) {
 		n := g.r.Intn(4)
 		for i := 0; i < n; i++ {
 			k := pubOf(kpN('A', 10+g.r.Intn(8)))
+			if g.r.Chance(25) {
+				// not a key at all: text that JSON writes with escapes, blanks, non-ASCII (Encode does not validate)
+				if s := g.str(); s != "" {
+					k = s
+				}
+			}
 			switch g.r.Intn(3) {
 			case 0:
 				sk.Add(k)
